@@ -20,6 +20,10 @@ CLAIMED = {
             "Theorems in lean/NodisVerif/Props/C04.lean (43): ZSet.WF is preserved by every mutator for every non-NaN score, insertion order, tie and update (wf_run over arbitrary operation lists); the index chain equals the dictionary sorted by (score, member); ZCARD/ZSCORE/ZRANK/ZREVRANK/ZCOUNT/ZRANGEBYSCORE (all bound modes, LIMIT, both directions)/ZREMRANGEBYRANK/ZREMRANGEBYSCORE equal the specification on the sorted list. Rank windows of ZRANGE/ZREVRANGE are proved equal to the specification only on an explicit region (their 1-based behaviour is pinned by the repository's tests: known finding with closed forms and witnesses). The real skiplist (spans, levels, backward links, dictionary agreement) is validated by a hook after every dump, on exhaustive short sequences and on 400-member sets.",
             "Lean kernel + 3 standard axioms; correspondence run; skiplist spans/levels/pointers are checked on the implementation, the model treats the skiplist as its level-0 chain; float order is modelled on IEEE bit patterns, float text conversion is not.",
             "DESIGN.md §6 C04"),
+    "C15": ("Lean 4 proof that the RESP reader model inverts the encoder for every name/argument vector, is independent of how the byte stream is split into reads, and recognises option words only as whole arguments + differential execution of the reader model against the real reader on exactly chosen read fragments",
+            "Theorems in lean/NodisVerif/Props/C15.lean (23): chunk_independent (the parse of one command, and of a whole connection, depends only on the byte stream, never on the fragmentation), parse_encode (any name and any arguments of arbitrary bytes within the 512 MiB protocol limit come back exactly, name upper-cased), parse_too_large (beyond the limit: an error, never a panic or an allocation), pipeline (k commands back to back, any chunking, are read in order), options_whole_argument / upper_nonascii_never_a_word, connections_independent. The model is executed against redis.Reader through a hook that serves one connection on a fake net.Conn delivering exactly the chosen fragments: every single cut and double cut of short pipelines, random fragmentations incl. byte-by-byte, arguments larger than the 4096-byte buffer, depth-1000 pipelines, malformed frames, inline commands and noise.",
+            "Lean kernel + 3 standard axioms; correspondence run; net.Conn semantics (a Read returns 1..len(p) bytes of the stream in order) is an assumption of the source model; 'one connection never affects another' holds in the model by construction (no shared reader state) and is not separately tested under thread interleavings.",
+            "DESIGN.md §6 C15"),
 }
 NOT_YET = {
 }
